@@ -17,8 +17,10 @@ FILE = "lib/core/covfie/core/backend/transformer/hilbert.hpp"
 
 OPAQUE = harness.INCLUDES + """
 namespace covfie::utility {
-template <> std::size_t round_pow2<std::size_t, true>(std::size_t);
-template <> std::size_t ipow<std::size_t, true>(std::size_t, std::size_t);
+// declared, never defined: the calls stay calls.  The exception specification must match the primary template's, whatever it is:
+// it is taken from another instantiation.
+template <> std::size_t round_pow2<std::size_t, true>(std::size_t) noexcept(noexcept(round_pow2<unsigned char, true>(static_cast<unsigned char>(1))));
+template <> std::size_t ipow<std::size_t, true>(std::size_t, std::size_t) noexcept(noexcept(ipow<unsigned char, true>(static_cast<unsigned char>(1), static_cast<unsigned char>(1))));
 }
 """
 RP2 = "_ZN6covfie7utility10round_pow2"
